@@ -1,4 +1,5 @@
 import Ruint.Lemmas.BitsRev
+import Mathlib.Data.Nat.Size
 
 /-!
 # C06 — bitwise logic, bit access and bit counting agree with the binary expansion
@@ -277,5 +278,17 @@ theorem trailing_ones_testBit (bits : ℕ) (a : List ℕ) (ha : Canon bits a) :
   have := p1 bits hc
   rw [val_testBit_lt bits a ha bits (le_refl _)] at this
   exact Bool.false_ne_true this
+
+/-- `size` (the number of significant bits used in the statements above) is Mathlib's `Nat.size`. -/
+theorem size_eq_natSize (x : ℕ) : size x = Nat.size x := by
+  by_cases hx : x = 0
+  · subst hx; simp [size]
+  · obtain ⟨b1, b2⟩ := size_bounds x
+    have b2 := b2 hx
+    have h1 : Nat.size x ≤ size x := Nat.size_le.mpr b1
+    have hs : size x ≠ 0 := by
+      intro h0; rw [h0] at b1; simp at b1; exact hx b1
+    have h2 : size x - 1 < Nat.size x := Nat.lt_size.mpr b2
+    omega
 
 end Ruint.C06
